@@ -59,6 +59,7 @@
     both hold in exact arithmetic (C02NoErrorExact) and for float64 by monotonicity of rounding (trusted, observed).
 -/
 import GoNeat.Proofs.NoErrorEpoch
+import GoNeat.Proofs.NoErrorSpawn
 
 set_option linter.unusedSectionVars false
 
@@ -156,6 +157,53 @@ theorem runEpochs_no_error (hff : FloatFacts W) (S : List Nat) (o : EpochOpts W)
       exact ih (fun e he' => hev e (by simp [he'])) (gen + 1) p' rs'
         (valid_of_ok (nextEpoch_prefixDet o gen (ev p)) hv he)
         (nextEpoch_popOk hff S o (ev p) hyp gen rs rs' hv p' he) hq2 msg
+
+/-! ### construction establishes the population hypotheses -/
+
+/-- **a population spawned from a well-formed non-modular genome satisfies `PopOk`** with the trait shape of that genome:
+    together with `nextEpoch_popOk` the population hypotheses hold in every generation of a run that starts with
+    `NewPopulation` -/
+theorem spawn_popOk (o : EpochOpts W) (g : Genome W) (rs rs' : List Nat) (p : Pop W) (hw : WFT g) (hm : g.modules = [])
+    (h : spawn o g rs = .ok (p, rs')) : PopOk (shape g) o p := by
+  obtain ⟨hu, hs, hsize, hperm⟩ := spawn_inv o g p rs rs' h
+  have hpool := (spawn_poolOk o g rs rs' p hw hm h).subset (P' := genomesOfPop p) (fun x hx => List.mem_append_right _ hx)
+  unfold spawn at h
+  split at h
+  · cases h
+  · split at h
+    · cases h
+    · next orgs rs1 hloop =>
+      split at h
+      · cases h
+      · split at h
+        · cases h
+        · simp only at h
+          split at h
+          · cases h
+          · next lastNode _ nextInn _ p1 hsp =>
+            simp only [Except.ok.injEq, Prod.mk.injEq] at h
+            obtain ⟨rfl, _⟩ := h
+            obtain ⟨horgs, hreg⟩ := speciate_orgs o _ _ _ hsp
+            have horg := spawnLoop_orgs g o.popSize 0 0 orgs rs rs1 hloop
+            have hnew : ∀ x ∈ allOrgs p1, x ∈ orgs := by
+              intro x hx
+              rcases horgs x hx with h0 | h0
+              · simp [allOrgs] at h0
+              · exact h0
+            have hsl := hsp
+            unfold speciate at hsl
+            split at hsl
+            · cases hsl
+            · refine ⟨hu, hs, hsize, hperm, ?_, ?_, fun x hx => (horg x (hnew x hx)).1, hpool, ?_, ?_⟩
+              · rw [(speciateLoop_uids o _ p1 orgs hsl).2.1]
+                show (orgs.map (·.uid)).Nodup
+                rw [spawnLoop_uids g o.popSize 0 0 orgs rs rs1 hloop]
+                exact range_shift_nodup _ _
+              · exact speciateLoop_nonempty o _ p1 orgs hsl (by intro s hs'; cases hs')
+              · intro i hi; rw [hreg] at hi; cases hi
+              · intro g' hg'
+                obtain ⟨s, hs', x, hx, rfl⟩ := mem_genomesOfPop.mp hg'
+                exact (horg x (hnew x (mem_allOrgs.mpr ⟨s, hs', hx⟩))).2
 
 /-! ### the hypotheses are decidable, and not vacuous -/
 
